@@ -171,17 +171,15 @@ def m_parse_int(ex, a, m):
         if len(chars) == 1: return err(Opaque('ParseIntError'))
         chars = chars[1:]
     if len(chars) > 30: raise Unsupported('symbolic number text too long')
-    acc = z3.BitVecVal(0, 128)
+    W = 64 if len(chars) <= 18 else 128          # 18 decimal digits fit 63 bits: no wrap-around in the accumulator
     for c in chars:
         if isinstance(c, str):
             if not c.isdigit() or not c.isascii(): return err(Opaque('ParseIntError'))
-            d = z3.BitVecVal(ord(c) - 48, 128)
-        else:
-            if not MM_branch(ex, Bool(z3.And(z3.UGE(c.bv, 48), z3.ULE(c.bv, 57)))): return err(Opaque('ParseIntError'))
-            d = z3.ZeroExt(96, c.bv) - 48
-        acc = acc * 10 + d
+        elif not MM_branch(ex, Bool(z3.And(z3.UGE(c.bv, 48), z3.ULE(c.bv, 57)))): return err(Opaque('ParseIntError'))
+    from .jsonmodel import decimal_value
+    acc = decimal_value(ex, chars, W)
     val = -acc if neg else acc
-    fits = z3.And(val >= z3.BitVecVal(lo, 128), val <= z3.BitVecVal(hi, 128))
+    fits = z3.And(val >= z3.BitVecVal(lo, W), val <= z3.BitVecVal(hi, W))
     if MM_branch(ex, Bool(z3.simplify(fits))): return ok(Int(z3.simplify(z3.Extract(nb - 1, 0, val)), ty))
     return err(Opaque('ParseIntError'))
 @model_rx(r'^(?:core::|alloc::|std::)?str::<impl str>::(contains|starts_with|ends_with)$')
